@@ -223,7 +223,7 @@ func (k msgServer) subUnlockedERC20Tokens(ctx sdk.Context, tokenPair erc20types.
 	}
 
 	if !unpackedRet.Value {
-		return errorsmod.Wrap(err, "failed to transfer erc20 tokens")
+		return errorsmod.Wrap(sdkerrors.ErrLogic, "failed to transfer erc20 tokens")
 	}
 
 	// Check expected balance after transfer execution
